@@ -192,6 +192,11 @@ func (r *renderer) boundary(sepNeeded bool) {
 				if strings.HasPrefix(t, "/") {
 					r.write(" ")
 				}
+				if l.CRLF {
+					// in a text with CRLF line ends the line breaks of the trivia are CRLF as well (a
+					// line break may follow an unquoted token directly)
+					t = strings.ReplaceAll(t, "\n", "\r\n")
+				}
 				r.write(t)
 			}
 			emitted = true
